@@ -9,7 +9,7 @@ import tempfile
 from click.testing import CliRunner
 import textx.registration as reg
 from textx import metamodel_from_str, GeneratorDesc, LanguageDesc
-from textx.registration import register_language, register_generator
+from textx.registration import register_language, register_generator, metamodel_for_language
 from textx.cli import textx as textx_cli
 
 try:
@@ -18,12 +18,19 @@ except ImportError:  # pragma: no cover
     GeneratorParam = None
 
 GRAMMAR = "Model: 'model' name=ID items*=Item; Item: 'item' name=ID ';';"
+GRAMMAR1 = "Model: 'model' name=ID items*=Item; Item: 'entry' name=ID ';';"
+MMS = []
 calls = []
 
 
 def mk_gen(tag, lang):
     def gen(metamodel, model, output_path, overwrite, debug, **custom_args):
-        calls.append({"gen": tag, "lang": lang, "model": None if model is None else os.path.basename(model._tx_filename),
+        mm = [i for i, m in enumerate(MMS) if m is metamodel]
+        if not mm and metamodel is metamodel_for_language("textx"):
+            mm = [3]
+        calls.append({"gen": tag, "lang": lang, "mm": mm[0] if mm else 2, "overwrite": overwrite,
+                      "mm_is_models": model is None or model._tx_metamodel is metamodel,
+                      "model": None if model is None else os.path.basename(model._tx_filename),
                       "kwargs": {k: (True if v is True else v) for k, v in custom_args.items()}})
     return gen
 
@@ -42,9 +49,11 @@ def main():
     mm = metamodel_from_str(GRAMMAR)
     reg.clear_language_registrations()
     reg.clear_generator_registrations()
+    mm1 = metamodel_from_str(GRAMMAR1)
+    MMS.extend([mm, mm1])
     register_language(LanguageDesc("c30lang", pattern="*.c30x", metamodel=mm))
-    register_language(LanguageDesc("c30other", pattern="*.c30y", metamodel=metamodel_from_str(GRAMMAR)))
-    LANGS = {0: "c30lang", 1: "c30other"}
+    register_language(LanguageDesc("c30other", pattern="*.c30y", metamodel=mm1))
+    LANGS = {0: "c30lang", 1: "c30other", 2: "any"}
     cap = Capture()
     logging.getLogger().addHandler(cap)
     runner = CliRunner()
@@ -58,6 +67,8 @@ def main():
                     f.write(content)
             target = "t%d" % i
             for lang, decl in (case.get("declared") or {}).items():
+                if decl == "absent":
+                    continue
                 params = None if decl is None else [GeneratorParam(name=n, description="", mandatory=m) for n, m in decl]
                 register_generator(GeneratorDesc(LANGS[int(lang)], target, generator=mk_gen(target, int(lang)), custom_args=params))
             del calls[:]
